@@ -585,6 +585,23 @@ func mkStore(s: string, t: string, v: int) => Store {
 	return Store{names: [2]string{s + "0", t + "1"}, nodes: [2]*Node{&Node{val: v, name: s}, nil}}
 }
 
+type Texter interface {
+	Text(n: int) => string
+}
+
+// single-value assertions from one interface type to another (they succeed for
+// *Res and *Base); the asserted values die when the helper returns
+func textOf(x: interface{}, n: int) => string {
+	t := x.(Texter)
+	return t.Text(n)
+}
+
+func descOf(x: interface{}) => string {
+	d := x.(Describer)
+	e := d.(interface{})
+	return d.Describe() + e.(Describer).Describe()
+}
+
 func catAny(xs: ...interface{}) => string {
 	r := ""
 	for _, x := range xs {
@@ -1136,6 +1153,8 @@ func (g *gen) formOps4() {
 	g.add("package-level variables left parked, overwritten by the next visit", fmt.Sprintf("old := gStr\ngStr = %s + itoa(b)\nn := gNode\ngNode = &Node{val: c, rank: 0, name: old}\nif n != nil {\ngNode.val += n.val %% 7\n}\ngSI = append(gSI, b)\nif len(gSI) > 20 {\ngSI = gSI[:2]\n}\n"+clip("gStr")+"%s = old\nreturn hStr(old) + hN(gNode) + hSI(gSI)", str("b"), str("a")))
 	g.add("fields of a package-level struct and constant-index array elements", fmt.Sprintf("gHold.any = %s\ngHold.rows = append(gHold.rows, %s)\nif len(gHold.rows) > 6 {\ngHold.rows = nil\n}\ngHold.arr[1] = %s\ngArr[2] = gHold.arr[1] + \"z\"\ngArr[0] = gArr[2]\nr := hH(&gHold) + hStr(gArr[0])\nif c%%3 == 0 {\ngHold.any = nil\ngHold.arr[1] = \"\"\ngArr[2] = \"\"\ngArr[0] = \"\"\n}\nif c%%5 == 0 {\ngHold.rows = nil\n}\nreturn r", str("b"), si("c"), str("c")))
 	g.add("constant index of array-valued call results", fmt.Sprintf("st := mkStore(%s, %s, b)\nx := st.Snapshot()[0]\ny := mkArr(x, %s)[1]\nz := mkStore(y, x, c).names[1]\nn := st.Nodes()[0]\nfor i := 0; i < 1+c%%3; i++ {\nx = st.Snapshot()[1] + itoa(i)\nn = st.Nodes()[0]\n}\nr := x + y + z + st.names[0]\n"+clip("r")+"%s = r\nreturn hStr(r) + hN(n) + hN(st.nodes[0])", str("b"), str("c"), str("c"), str("a")))
+	g.add("single-value assertion from one interface type to another, repeated", fmt.Sprintf("rs := &Res{name: %s, data: %s}\nx: interface{} = rs\nr := \"\"\nfor i := 0; i < 1+c%%3; i++ {\nr += textOf(x, i)\ncl := x.(Closer)\nr += cl.Text(b)\n}\nbs := &Base{note: %s, id: b}\nvar y: interface{} = bs\nr += descOf(y) + descOf(y)\nfresh := %s + \"f\"\nr += rs.name + bs.note + fresh\n"+clip("r")+"%s = r\nreturn hStr(r) + hSI(rs.data)", str("b"), si("c"), str("c"), str("b"), str("a")))
+	g.add("method value bound to an interface receiver, called", fmt.Sprintf("d: Describer = &Base{note: %s, id: c}\nf := d.Describe\nr := f()\nfor i := 0; i < 1+b%%3; i++ {\nr += f()\n}\ncl: Closer = &Res{name: %s, data: %s}\ng := cl.Text\nh := cl.Rows\nr += g(b)\nrows := h()\nunused := d.Describe\n_ = unused\n"+clip("r")+"%s = r\n%s = rows\nreturn hStr(r) + hSI(rows)", str("b"), str("c"), si("c"), str("a"), si("a")))
 	g.add("string to runes and back", fmt.Sprintf("rs := []rune(%s + \"世a\")\nfor i := range rs {\nif i%%2 == c%%2 {\nrs[i] = rune('b' + (b+i)%%20)\n}\n}\nu := string(rs[1:]) + string(rs[0]) + string(rune(0x4e16+b%%8))\n"+clip("u")+"%s = u\nreturn hStr(u) + i64(len(rs))", str("b"), str("a")))
 	g.add("local array of strings copied by value", fmt.Sprintf("arr: [3]string\narr[b%%3] = %s\narr[c%%3] = %s + \"k\"\nt := arr\nt[0] = t[1] + t[2]\nr := arr[0] + \"|\" + t[0]\n"+clip("r")+"%s = r\nreturn hStr(r)", str("b"), str("c"), str("a")))
 	g.add("slice of slices of strings, inner append", fmt.Sprintf("rows := [][]string{}\nfor i := 0; i < 1+c%%3; i++ {\nrows = append(rows, []string{%s})\nrows[i] = append(rows[i], itoa(i+b))\nrows[0] = append(rows[0], rows[i][0])\n}\nr := \"\"\nfor _, row := range rows {\nfor _, x := range row {\nif len(r) < 120 {\nr += x\n}\n}\n}\n%s = r\nreturn hStr(r) + i64(len(rows[0]))", str("b"), str("a")))
